@@ -38,6 +38,8 @@ class PoolPlan:
     kill_at_yield: int = -1  # whole-process death at this scheduler step
     yields: int = 0
     timed_out: list = field(default_factory=list)
+    script: list | None = None  # explicit schedule: -1 = start the next queued task, i = advance task i (replay / shrinking)
+    tparams: dict | None = None  # {task: [own steps, further steps of the rest]} for timeout tasks
 
 
 CURRENT: PoolPlan | None = None
